@@ -42,6 +42,64 @@ def accepted_at_equality(cond, pol, fft_shape_atoms):
     return not raises
 
 
+def none_state(p, name):
+    """True / False when the path decided ``name is None`` / ``is not None``; None when it never tested it."""
+    for c, pol, _ in p.conds:
+        a = c.single_atom() if isinstance(c, Poly) else None
+        if a is not None and is_app(a, ('is', 'isnot', 'eq', 'ne')) and len(a[2]) == 2:
+            x, y = a[2]
+            none = (NONE, Poly.atom(('val', NONE)))
+            if y == S(name) and x in none:
+                x, y = y, x
+            if x == S(name) and y in none:
+                return pol if a[1] in ('is', 'eq') else (not pol)
+    return None
+
+
+def view_chain(v, loops):
+    """(root atom, [index keys from the root outwards]) of a value that denotes an array or a basic-index
+    view of it; stores into it (setitem / loop-carried versions) are the same buffer."""
+    keys = []
+    a = v.single_atom() if isinstance(v, Poly) else None
+    for _ in range(32):
+        if a is None:
+            return None, keys
+        if a[0] == 'idx':
+            keys.insert(0, a[2])
+            a = a[1]
+        elif a[0] == 'app' and (a[1] == 'setitem' or a[1].startswith('mut:')) and a[2] and isinstance(a[2][0], Poly):
+            a = a[2][0].single_atom()
+        elif a[0] == 'loop':
+            pre = None
+            for lp in loops:
+                for n, phi in lp['phi'].items():
+                    if phi.single_atom()[1] == a[1]:
+                        pre = lp['pre'].get(n)
+            a = pre.single_atom() if isinstance(pre, Poly) else None
+        else:
+            return a, keys
+    return None, keys
+
+
+def full_key(k):
+    items = k.items if isinstance(k, Tup) and k.kind != 'vec' else [k]
+    for it in items:
+        if it == nf.ELLIPSIS:
+            continue
+        if isinstance(it, Slice) and it.lo in (NONE, C(0)) and it.hi == NONE and it.step == NONE:
+            continue
+        return False
+    return True
+
+
+def corner_key(k, region):
+    """k == (0:region[0], 0:region[1])"""
+    if not (isinstance(k, Tup) and len(k) == 2):
+        return False
+    return all(isinstance(it, Slice) and it.lo in (NONE, C(0)) and it.hi == hi and it.step == NONE
+               for it, hi in zip(k.items, region))
+
+
 def run(chk, repo, tier):
     from .common import no_hidden_state
     no_hidden_state(chk, repo, 'C09')
@@ -134,38 +192,58 @@ def run(chk, repo, tier):
     chk.ob('C09-c', 'D-flow', fss.key, 'advertised shape is the FFT grid of _fft_shape', oks, '', fss.loc())
 
     # ---------------------------------------------------------------- C09-d / f / g
-    scr = [p for p in returns(paths) if any(pol and fmt(c) == 'isnot(scratch, (None))' for c, pol, _ in p.conds)]
-    nos = [p for p in returns(paths) if p not in scr]
+    scr = [p for p in returns(paths) if none_state(p, 'scratch') is False]
+    nos = [p for p in returns(paths) if none_state(p, 'scratch') is True]
     if len(scr) != 1 or len(nos) != 1:
         raise AnalysisError('propagate_fft: scratch / no-scratch paths not identified')
     ps, pn = scr[0], nos[0]
-    region = Tup([Slice(C(0), nf.index(fft_shape, C(0))), Slice(C(0), nf.index(fft_shape, C(1)))])
-    lps = [lp for lp in ps.state.loops if lp['func'] == f.key]
-    if not lps:
-        raise AnalysisError('propagate_fft: insert loop not found')
-    lp = lps[0]
-    pre = lp['pre'].get('scratch')
-    pa = pre.single_atom() if isinstance(pre, Poly) else None
-    zero_ok = pa is not None and is_app(pa, 'setitem') and pa[2][0] == S('scratch') and pa[2][1] == region and \
-        isinstance(pa[2][2], Poly) and pa[2][2].is_zero()
+    region = (nf.index(fft_shape, C(0)), nf.index(fft_shape, C(1)))
+    loops = ps.state.loops
+
+    def in_region(v, key=None):
+        """Is (a write to / a read of) ``v[key]`` exactly the [0:fft_shape[0], 0:fft_shape[1]] part of scratch?"""
+        root, keys = view_chain(v, loops)
+        if key is not None:
+            keys = keys + [key]
+        keys = [k for k in keys if not full_key(k)]
+        return root == ('sym', 'scratch') and len(keys) == 1 and corner_key(keys[0], region)
+
+    def on_scratch(v):
+        return view_chain(v, loops)[0] == ('sym', 'scratch')
+
+    ins = [e for e in ps.events if e.kind == 'call' and e.data.get('callee') == 'field.insert']
+    if not ins:
+        raise AnalysisError('propagate_fft: no field.insert call on the scratch path')
+    first_ins = ps.events.index(ins[0])
+    before = [e for e in ps.events[:first_ins] if e.kind == 'write' and e.data.get('how') == 'setitem' and on_scratch(e.target)]
+    zero_ok = bool(before) and not before[-1].in_loop and in_region(before[-1].target, before[-1].data.get('key')) and \
+        isinstance(before[-1].data.get('value'), Poly) and before[-1].data.get('value').is_zero()
     chk.ob('C09-d', 'D-dominance', f.key, 'the used region of scratch is zeroed before the first insert', zero_ok,
-           f'before the insert loop scratch is {fmt(pre)[:160]}', f.loc(lp['node']))
-    ins = ps.calls('field.insert')
-    phi = lp['phi'].get('scratch')
-    ok_ins = len(ins) == 1 and phi is not None and ins[0].bound.get('out') == nf.index(phi, region) and \
-        ins[0].bound.get('intensity') == FALSE
-    fa = ins[0].bound.get('field').single_atom() if ins else None
-    ok_ins = ok_ins and fa is not None and fa[0] == 'idx' and fa[1] == nf.attr(WF, 'data').single_atom()
+           (f'last store to scratch before the inserts: scratch-view[{fmt(before[-1].data.get("key"))[:100]}] = '
+            f'{fmt(before[-1].data.get("value"))[:60]}') if before else 'scratch is not written before the inserts',
+           f.loc(ins[0].node))
+    ok_ins = len(ins) == 1 and ins[0].in_loop and in_region(ins[0].bound.get('out')) and ins[0].bound.get('intensity') == FALSE
+    fa = ins[0].bound.get('field').single_atom() if isinstance(ins[0].bound.get('field'), Poly) else None
+    ok_ins = ok_ins and fa is not None and fa[0] == 'idx' and fa[1] == nf.attr(WF, 'data').single_atom() and \
+        isinstance(fa[2], Poly) and fa[2].single_atom() is not None and fa[2].single_atom()[0] == 'iter'
     chk.ob('C09-d', 'N-region', f.key, 'every field of the wavefront is inserted into that region', ok_ins,
-           f'insert(out={fmt(ins[0].bound.get("out"))[:120]})' if ins else 'no insert', f.loc())
-    st = [e for e in ps.writes() if e.in_loop and e.data.get('how') == 'setitem' and root_sym(e.target) is None
-          or (e.in_loop and e.data.get('how') == 'setitem')]
-    ok_st = bool(st) and all(e.data.get('key') == region for e in st)
-    chk.ob('C09-d', 'N-region', f.key, 'the insert result is stored back into the same region', ok_st, '', f.loc())
+           f'insert(out={fmt(ins[0].bound.get("out"))[:120]})', f.loc(ins[0].node))
+    st = [e for e in ps.events[first_ins:] if e.kind == 'write' and e.data.get('how') == 'setitem' and on_scratch(e.target)]
+    if st:
+        ok_st = all(in_region(e.target, e.data.get('key')) and e.data.get('value') == ins[0].result for e in st)
+        det_st = '; '.join(f'scratch-view[{fmt(e.data.get("key"))[:80]}] = {fmt(e.data.get("value"))[:40]}' for e in st)
+    else:
+        # nothing stored back: the insert must accumulate into its ``out`` argument in place
+        from ..effects import Effects
+        sm = Effects(repo).summary(repo.func('field.insert'))
+        ok_st = any(getattr(w, 'param', None) == 'out' for w in sm.writes)
+        det_st = 'no store-back; field.insert ' + ('writes' if ok_st else 'does not write') + ' its out argument in place'
+    chk.ob('C09-d', 'N-region', f.key, 'the insert result lands in the same region (stored back there or accumulated in place)',
+           ok_st, det_st, f.loc())
     f2s = ps.calls('propagate._fft2')
-    out_s = Poly.atom(('loop', phi.single_atom()[1], 'out')) if phi is not None else None
-    ok_t = len(f2s) == 1 and out_s is not None and f2s[0].bound.get('x') == nf.index(out_s, region)
-    chk.ob('C09-d', 'N-region', f.key, 'the transform reads exactly that region', ok_t,
+    last_ins = max(i for i, e in enumerate(ps.events) if e in ins)
+    ok_t = len(f2s) == 1 and in_region(f2s[0].bound.get('x')) and ps.events.index(f2s[0]) > last_ins
+    chk.ob('C09-d', 'N-region', f.key, 'the transform reads exactly that region, after the inserts', ok_t,
            f'_fft2({fmt(f2s[0].bound.get("x"))[:120]})' if f2s else '', f.loc())
     pads = pn.calls('util.pad')
     f2n = pn.calls('propagate._fft2')
